@@ -4,6 +4,7 @@ import json
 import os
 import time
 
+import lib
 from lib import *
 
 import concurrent.futures
@@ -76,10 +77,18 @@ WHAT = "update changed something outside the failing expectations (or is not ide
 def run(prop, tier, replay=None):
     t0 = time.time()
     work = workdir(f"{prop}-{tier}")
-    build_s = build(need_scrut_bin=True)
+    build_s = build(need_scrut_bin=True, allow_broken_harness=True)
     V = Verdicts(prop)
     s = seed()
     cov = {}
+    if lib.HARNESS_BROKEN[0] and not replay:
+        # the harness does not compile against /repo any more: the leg that drives only the binary still runs
+        import p_updatecmd
+        p_updatecmd.stage(prop, tier, work, V, cov, s)
+        code, nviol, known = V.finish()
+        if nviol == 0:
+            tool_error("harness build failed (does /repo still compile with --features verif?); the update-command leg found no violation")
+        return code
     if replay:
         with open(replay) as f:
             body = json.load(f)
